@@ -128,7 +128,8 @@ class DiscreteFourierTransformBase(Operator):
 
             shape = np.atleast_1d(ran_shape)
             range = uniform_discr(
-                [0] * len(shape), shape - 1, shape, ran_dtype, impl,
+                [0] * len(shape), np.maximum(shape - 1, 1), shape, ran_dtype,
+                impl,
                 nodes_on_bdry=True, exponent=conj_exponent(domain.exponent))
 
         else:
